@@ -412,62 +412,5 @@ def _names_after_eviction(repo, sink, c, pk, od):
 
 
 def _wiring(repo, sink):
-    comp = repo.cls("Composition")
-    found = {"outputs": {}, "adapters": {}}
-    for f in comp.methods.values():
-        for n in fn_walk(f.node):
-            if isinstance(n, ast.Assign):
-                for t in n.targets:
-                    if isinstance(t, ast.Attribute) and t.attr in ("memory_limit", "memory_location") and f"_slot_{t.attr}" in U(n.value):
-                        loop = n
-                        while loop is not None and not isinstance(loop, ast.For):
-                            loop = getattr(loop, "_parent", None)
-                        it_txt = U(loop.iter) if loop is not None else ""
-                        kind = "adapters" if "_adapters" in it_txt else "outputs" if "outputs" in it_txt else None
-                        if kind:
-                            found[kind][t.attr] = (f, n, loop)
-    for kind in ("outputs", "adapters"):
-        missing = [a for a in ("memory_limit", "memory_location") if a not in found[kind]]
-        if missing:
-            sink.bad("R25", f"composition-hands-limit-to:{kind}", comp.methods.get("connect"), f"Composition does not hand {missing} to its {kind}")
-            continue
-        f, _n, loop = found[kind]["memory_limit"]
-        # abstract execution of the loop over slots with every combination of own / unset settings
-        slots = []
-        for own_limit in (False, True):
-            for own_loc in (False, True):
-                sl = Obj(label=f"slot(limit={'own' if own_limit else 'unset'},location={'own' if own_loc else 'unset'})")
-                sl.fields.update(memory_limit=Sym("own_limit") if own_limit else None, memory_location=Sym("own_loc") if own_loc else None)
-                slots.append((sl, own_limit, own_loc))
-        me = Obj(label="composition")
-        me.fields.update(_slot_memory_limit=Sym("LIMIT"), _slot_memory_location=Sym("LOCATION"), _adapters=[x[0] for x in slots])
-        holder = Obj(label="comp")
-        holder.fields.update(outputs={f"o{i}": x[0] for i, x in enumerate(slots)})
-        it = FinamInterp(repo)
-        env = {"self": me, "comp": holder, "__mod__": f.module}
-        try:
-            it.exec_stmt(loop, env, f.module)
-        except (Raised, Undecided, AnalysisError) as exc:
-            sink.unknown("R25", f"composition-hands-limit-to:{kind}", f, f"assignment loop outside vocabulary: {exc}")
-            continue
-        why = None
-        for sl, own_limit, own_loc in slots:
-            wl = Sym("own_limit") if own_limit else Sym("LIMIT")
-            wloc = Sym("own_loc") if own_loc else Sym("LOCATION")
-            if sl.fields["memory_limit"] != wl or sl.fields["memory_location"] != wloc:
-                why = why or (f"{sl.label}: ends with limit {sl.fields['memory_limit']!r}, location {sl.fields['memory_location']!r}; "
-                              f"expected {wl!r}, {wloc!r} (each unset setting takes the composition's value independently)")
-        sink.check(why is None, "R25", f"composition-hands-limit-to:{kind}", f,
-                   ok=f"every unset memory limit / location of the {kind} takes the composition's value, own settings are kept", bad=why or "")
-    if "memory_limit" in found["adapters"]:
-        f, n, loop = found["adapters"]["memory_limit"]
-        from ..cfg import CFG
-        cfg = CFG(f.node)
-        cc = [c for c in calls(f.node, "_connect_components")]
-        col = [c for c in calls(f.node, "_collect_adapters")]
-        if cc and col:
-            ok = cfg.dominates(cfg.node_of(loop), cfg.node_of(cc[0])) and cfg.dominates(cfg.node_of(col[0]), cfg.node_of(loop))
-            sink.check(ok, "R25", "limit-before-connect", f, ok="adapters are collected, then given the limit, then components connect",
-                       bad="the memory limit is not handed to the collected adapters before data is exchanged")
-        else:
-            sink.unknown("R25", "limit-before-connect", f, "adapter limit assignment is not in the method that collects adapters and connects")
+    from .lifetrace import r25w_memory_wiring
+    r25w_memory_wiring(repo, sink)
